@@ -270,36 +270,13 @@ class DomainValueExtractor:
         if isinstance(variable, Literal):
             return sample
 
-        dao_class = get_dao_class(type(sample))
-        if dao_class is None:
+        if get_dao_class(type(sample)) is None:
             return sample
 
-        if isinstance(sample, dao_class):
-            return sample.id if hasattr(sample, "id") else sample
-
-        return self._resolve_dao_instance(sample, dao_class)
-
-    def _resolve_dao_instance(self, sample: Any, dao_class: type) -> Any:
-        """
-        Resolve a DAO instance from a sample entity.
-
-        :param sample: The sample entity
-        :param dao_class: The DAO class
-        :return: The DAO id or the sample itself
-        """
-        filters = {}
-        if hasattr(sample, "id_"):
-            filters["id_"] = sample.id_
-        elif hasattr(sample, "name"):
-            filters["name"] = sample.name
-
-        if filters:
-            dao_instance = self.session.query(dao_class).filter_by(**filters).first()
-            if dao_instance is not None:
-                return dao_instance.id if hasattr(dao_instance, "id") else dao_instance
-
+        # a variable over mapped entities stands for every element of its domain, not for one row
         raise DomainExtractionError(
-            f"Cannot resolve {sample!r} to a row of {dao_class.__name__}."
+            f"A variable of type {type(sample).__name__} cannot be used as an operand; "
+            "compare attributes of the two variables instead."
         )
 
 
